@@ -25,7 +25,10 @@ ID = "C19"
 EXTRACTORS = ["opcodes"]
 LEAN_MODULES = ["HalmosVerif.Props.C19"]
 LEAN_EXTRA_TARGETS = []
-RULE = ("every case also reads slices at far starts {2^20-33, 2^20-1, 2^20, 2^20+1, 2^32, 2^64, 2^255, 2^256-1}; CODECOPY/EXTCODECOPY "
+RULE = ("symbolic-destination JUMP programs (symbolic_jump=True; target = calldata word, optionally masked and offset so that 0, 1, 2, "
+        "3 or more valid JUMPDESTs are feasible, with and without feasible invalid values): the outcome multiset must be one path "
+        "per feasible valid JUMPDEST plus one invalid-jump halt iff an invalid value is feasible, per Spec.Code.run on each "
+        "concrete destination; every case also reads slices at far starts {2^20-33, 2^20-1, 2^20, 2^20+1, 2^32, 2^64, 2^255, 2^256-1}; CODECOPY/EXTCODECOPY "
         "programs on the real SEVM with offsets inside / at / past / far past the end, result (mem[0:32] after the copy) compared "
         "with Spec.Code.read; a case = (byte string, chunking, construction route; routes include *views*: a template ByteVec patched in place by "
         "set_byte/set_slice/__setitem__/set_word so that the first chunk is a truncated window, prefix and inner `slice` windows of "
@@ -1641,6 +1644,166 @@ def sevm_codecopy_section(ctx, rng, lean):
 
 
 # --------------------------------------------------------------------------------------------------------------------
+# JUMP with a SYMBOLIC destination (option symbolic_jump): one path per feasible valid JUMPDEST, plus an invalid-jump
+# halt whenever some feasible value is not a valid JUMPDEST
+
+SYMJUMP_DIRECTED = {
+    # PUSH0 CALLDATALOAD JUMP ; PUSH1 0x5b ; JUMPDEST ; STOP      (exactly one valid JUMPDEST; 4 is a 0x5b inside PUSH data)
+    "one-jumpdest-and-push-data-5b": ("5f3556" "605b" "5b00", None, None),
+    "two-jumpdests": ("5f3556" "5b5800" "605b" "5b5800", None, None),
+    "no-jumpdest": ("5f3556" "605b" "00", None, None),
+    # masked: target = calldata & 0x0f
+    "masked-one-jumpdest": ("5f35" "600f16" "56" "605b" "5b5800" "00" * 8 + "5b5800", 0x0F, None),
+    # target = (calldata & 1) + K with JUMPDESTs at both K and K+1: no invalid value is feasible
+    "all-feasible-values-valid": ("5f35" "600116" "600b01" "56" "0000" "5b5b5800", 0x01, 0x0B),
+    "single-feasible-value-valid": ("5f35" "600016" "600a01" "56" "00" "5b5800", 0x00, 0x0A),
+}
+
+
+def gen_symjump_program(rng):
+    """-> (code, mask|None, offset|None): target = calldata word [& mask] [+ offset]"""
+    variant = rng.choice(("plain", "plain", "mask", "mask", "mask+off", "mask+off", "dense"))
+    mask = off = None
+    pro = bytes([0x5F, 0x35])
+    if variant == "mask":
+        mask = rng.choice((0x07, 0x0F, 0x1F, 0x3F, 0x18, 0x0C, 0x09, 0x21))
+        pro += bytes([0x60, mask, 0x16])
+    elif variant in ("mask+off", "dense"):
+        mask = rng.choice((0x00, 0x01, 0x03, 0x07, 0x05)) if variant == "mask+off" else rng.choice((0x00, 0x01, 0x03))
+        off = 9 + (rng.randrange(0, 6) if variant == "mask+off" else 0)
+        pro += bytes([0x60, mask, 0x16, 0x60, off, 0x01])
+    pro += bytes([0x56])
+    blocks = [bytes([0x5B, 0x58, 0x00]), bytes([0x5B, 0x58, 0x00]), bytes([0x5B, 0x5B, 0x58, 0x00]), bytes([0x5B]),
+              bytes([0x60, 0x5B]), bytes([0x61, 0x5B, 0x5B]), bytes([0x00]), bytes([0x58]), bytes([0x00, 0x00, 0x00]),
+              bytes([0x7F]) + bytes([0x5B] * 32), bytes([0x62, 0x5B, 0x58, 0x00]), bytes([0x5F])]
+    nb = rng.choice((1, 2, 2, 3, 4, 6))
+    body = b"".join(rng.choice(blocks) for _ in range(nb))
+    if variant != "dense" and rng.random() < 0.65:
+        body = rng.choice((bytes([0x5B, 0x58, 0x00]), bytes([0x60, 0x5B, 0x5B, 0x58, 0x00]), bytes([0x00, 0x5B, 0x58, 0x00]),
+                           bytes([0x5B, 0x58, 0x5B, 0x58, 0x00]))) + body
+    if variant == "dense":
+        # every feasible value is a valid JUMPDEST: no invalid-jump halt may be reported
+        body = bytes([0x5B] * (mask + 1)) + bytes([0x58, 0x00]) + body
+    if rng.random() < 0.3:
+        body += rng.choice((bytes([0x60]), bytes([0x5B]), bytes([0x7F, 0x5B])))
+    return pro + body, mask, off
+
+
+def symjump_domain(code, mask, off):
+    """concrete calldata words that represent every feasible destination class"""
+    if mask is None:
+        return list(range(len(code) + 2)) + [1 << 255, (1 << 256) - 1, 1 << 16]
+    subs, sub = [], mask
+    while True:              # all submasks of mask
+        subs.append(sub)
+        if sub == 0:
+            break
+        sub = (sub - 1) & mask
+    return sorted(subs)
+
+
+def sevm_symjump_section(ctx, rng, lean):
+    h = H()
+    from vlib import sevmdrv
+    z3 = h["z3"]
+    ByteVec, Contract = h["ByteVec"], h["Contract"]
+    sevm, args = sevmdrv.mk_sevm(symbolic_jump=True, depth=TRACE_DEPTH)
+    progs = [("directed:" + k, bytes.fromhex(c), m, o) for k, (c, m, o) in SYMJUMP_DIRECTED.items()]
+    d = VERIF / "corpus" / ID
+    if d.is_dir():
+        for p in sorted(d.glob("*.json")):
+            try:
+                r = json.loads(p.read_text())
+            except Exception:  # noqa: BLE001
+                continue
+            r = r.get("replay", r)
+            if "symjump" in r:
+                c = r["symjump"]
+                progs.append(("corpus:" + p.stem, bytes.fromhex(c["code"]), c.get("mask"), c.get("offset")))
+    seen = {c for _, c, _, _ in progs}
+    for i in range(ctx.scale(140, 1500)):
+        code, m, o = gen_symjump_program(rng)
+        if code not in seen:
+            seen.add(code)
+            progs.append((f"random:{i}", code, m, o))
+    lines, index = [], []
+    for name, code, m, o in progs:
+        dom = symjump_domain(code, m, o)
+        index.append((len(lines), dom))
+        lines += [f"spec-run {code.hex()} 0 {TRACE_FUEL} {w:x}" for w in dom]
+    replies = lean.ask(lines)
+    for (name, code, m, o), (base, dom) in zip(progs, index, strict=True):
+        runs = [parse_run(replies[base + j]) for j in range(len(dom))]
+        check_symjump(ctx, name, code, m, o, dom, runs, sevmdrv, sevm, args)
+
+
+def check_symjump(ctx, name, code, m, o, dom, runs, sevmdrv, sevm, args):
+    h = H()
+    z3 = h["z3"]
+    if any(r["halt"] in ("fuel", "unsupported") for r in runs):
+        ctx.count("sevm-symjump:skipped")
+        return False
+    # group the reference outcomes: each valid destination is its own path; all invalid values share one invalid-jump halt
+    by_dest = {}
+    invalid = None
+    for w, r in zip(dom, runs, strict=True):
+        dest = (w & m if m is not None else w) + (o or 0)
+        out = outcome_of_spec(r)
+        if r["halt"] == "invalidjump" and r["trace"] and code[r["trace"][-1]] == 0x56 and len(r["trace"]) <= 8:
+            invalid = out
+        else:
+            by_dest.setdefault(dest, out)
+    expected = sorted(list(by_dest.values()) + ([invalid] if invalid is not None else []), key=repr)
+    cd = h["ByteVec"](z3.BitVec("c19_cd", 256))
+    replay = {"symjump": {"code": code.hex(), "mask": m, "offset": o}, "name": name}
+    nvalid = len(by_dest)
+    cls = f"{min(nvalid, 4)}{'+' if nvalid > 4 else ''}-valid-feasible:{'invalid-feasible' if invalid is not None else 'no-invalid-feasible'}"
+    try:
+        got = []
+        for ex in sevm.run(sevmdrv.mk_ex(sevm, args, h["Contract"](code), calldata=cd)):
+            err = ex.context.output.error
+            if err is None:
+                vals = []
+                for x in reversed(ex.st.stack):
+                    v = getattr(x, "value", x)
+                    vals.append(v if isinstance(v, int) and not isinstance(v, bool) else "sym")
+                got.append(("stop", ex.pc, tuple(vals)))
+            else:
+                nm = type(err).__name__
+                got.append((_ERRMAP.get(nm, nm), ex.pc, None))
+        got = sorted(got, key=repr)
+    except Exception as e:  # noqa: BLE001
+        ctx.violation(f"sevm-symjump:{cls}:exception:{type(e).__name__}", f"SEVM.run raised {type(e).__name__}: {e} on {code.hex()}", replay)
+        return True
+    ctx.count("sevm-symjump:" + cls)
+    ctx.case(("sevm-symjump", code, m, o))
+    if got == expected:
+        return False
+    missing = list(expected)
+    extra = []
+    for g in got:
+        if g in missing:
+            missing.remove(g)
+        else:
+            extra.append(g)
+    kinds = []
+    if any(x[0] == "invalidjump" for x in missing):
+        kinds.append("invalid-jump-halt-missing")
+    if any(x[0] != "invalidjump" for x in missing):
+        kinds.append("valid-destination-path-missing")
+    if any(x[0] == "invalidjump" for x in extra):
+        kinds.append("spurious-invalid-jump")
+    if any(x[0] != "invalidjump" for x in extra):
+        kinds.append("spurious-path")
+    ctx.violation(f"sevm-symjump:{cls}:{'+'.join(kinds) or 'differs'}",
+                  f"symbolic JUMP (target = calldata word{'' if m is None else f' & {m:#x}'}{'' if o is None else f' + {o}'}) in "
+                  f"{code.hex()} [{name}]: valid feasible destinations {sorted(by_dest)}, "
+                  f"{'some' if invalid is not None else 'no'} feasible value is not a valid JUMPDEST; the EVM has outcomes {expected} "
+                  f"(status, final pc, stack top first), SEVM.run gave {got}", replay)
+    return True
+
+
+# --------------------------------------------------------------------------------------------------------------------
 
 def run_cases(ctx, cases, rng, small, label, extra_slices_fn=None):
     lean = ctx.lean("Code")
@@ -1865,6 +2028,10 @@ def correspond(ctx):
     sevm_codecopy_section(ctx, rng, lean)
 
     _lap(ctx, "sevm-codecopy")
+    # 4a'. JUMP with a symbolic destination under symbolic_jump=True
+    sevm_symjump_section(ctx, rng, lean)
+
+    _lap(ctx, "sevm-symjump")
     # 4b. where execution continues after a taken jump (destinations include pc 0, the last byte, right after a PUSH32)
     sevm_trace_section(ctx, rng, lean)
 
@@ -1899,6 +2066,19 @@ def replay(ctx, data) -> bool:
         case = ViewCase(r["view"], bv=bv, expected=b"".join(v for k, v in pieces_of_bytevec(bv) if k == "c"))
         before = len(ctx.violations)
         run_cases(ctx, [case], ctx.rng, case.n <= 12, "replay")
+        for v in ctx.violations[before:]:
+            print(f"  {v['key']}: {v['what']}")
+        return len(ctx.violations) > before
+    if "symjump" in r:
+        from vlib import sevmdrv
+        sevm, args = sevmdrv.mk_sevm(symbolic_jump=True, depth=TRACE_DEPTH)
+        c = r["symjump"]
+        code = bytes.fromhex(c["code"])
+        dom = symjump_domain(code, c.get("mask"), c.get("offset"))
+        reps = ctx.lean("Code").ask([f"spec-run {code.hex()} 0 {TRACE_FUEL} {w:x}" for w in dom])
+        before = len(ctx.violations)
+        check_symjump(ctx, r.get("name", "replay"), code, c.get("mask"), c.get("offset"), dom, [parse_run(x) for x in reps],
+                      sevmdrv, sevm, args)
         for v in ctx.violations[before:]:
             print(f"  {v['key']}: {v['what']}")
         return len(ctx.violations) > before
